@@ -44,7 +44,7 @@ func init() {
 	Register(&Check{
 		ID: "C32", World: "E/ttl",
 		Gen: genTTL, Run: runTTL, Simplify: simplifyTTL,
-		OwnProbes: []string{"query_at_expiry_instant", "query_after_expiry", "readd_before_expiry", "refresh_landed_inside_lookup", "burst_expired"},
+		OwnProbes: []string{"query_at_expiry_instant", "query_after_expiry", "readd_before_expiry", "refresh_landed_inside_lookup", "refresh_landed_inside_listing", "burst_expired"},
 		Real:      []string{"generics.SetWithTTL", "generics.MapWithTTL"},
 		Stub:      []string{"clock: testing/synctest bubble clock"},
 	})
@@ -77,6 +77,16 @@ func genTTL(r *Rng, tier string, p *Plan) {
 			it := PickOf(r, ttlItems...)
 			p.Add(Op{K: "rm", S: it, At: now})
 			delete(exp, it)
+		case 6:
+			if !r.Bool(0.5) {
+				p.Add(Op{K: "adv", N: 0, At: now})
+				break
+			}
+			// a listing with a refresh of a listed element landing in the middle of it
+			// (the listing reads the clock while it walks the entries)
+			it := PickOf(r, ttlItems...)
+			p.Add(Op{K: "list_during_add", S: it, At: now})
+			exp[it] = now + ttl
 		case 5:
 			// a lookup of an element with a refresh of it landing in the middle of the lookup
 			it := PickOf(r, ttlItems...)
@@ -319,6 +329,27 @@ func runTTL(t *testing.T, p *Plan) *Outcome {
 					close(done)
 				} else {
 					out.Probe("refresh_landed_inside_lookup")
+				}
+				<-done
+				exp[op.S] = time.Now().Add(ttl)
+			case "list_during_add":
+				// as lookup_during_add, for the listing queries. If the listing and the
+				// refresh end up waiting for each other's lock, this call never returns:
+				// the run never ends, which the orchestrator reports as a deadlock
+				done := make(chan struct{})
+				clk.hook = func() {
+					gid := make(chan int64, 1)
+					go func() { gid <- goid(); sut.add(op.S); close(done) }()
+					awaitGoroutine(<-gid, done)
+				}
+				sut.members()
+				sut.length()
+				if clk.hook != nil {
+					clk.hook = nil
+					sut.add(op.S)
+					close(done)
+				} else {
+					out.Probe("refresh_landed_inside_listing")
 				}
 				<-done
 				exp[op.S] = time.Now().Add(ttl)
